@@ -199,7 +199,7 @@ func c14Outcome(o string) string {
 	return "OSuccess"
 }
 
-func c14Block(in *c14In) (string, int64) {
+func c14Block(in *c14In, unit time.Duration) (string, int64) {
 	names := make([]string, in.Hosts)
 	for i := range names {
 		names[i] = fmt.Sprintf("http://127.0.0.1:%d", 20000+i)
@@ -209,7 +209,7 @@ func c14Block(in *c14In) (string, int64) {
 	case in.FT < 0:
 		ft, ftZ = "1h", c14Big
 	case in.FT > 0:
-		ft, ftZ = fmt.Sprintf("%dms", int64(in.FT)*int64(c14Unit/time.Millisecond)), int64(in.FT)
+		ft, ftZ = fmt.Sprintf("%dms", int64(in.FT)*int64(unit/time.Millisecond)), int64(in.FT)
 	}
 	pol := in.Policy
 	if pol == "" {
@@ -230,18 +230,20 @@ func c14Skip(obs, class string) Result {
 	return Result{Term: "(CStress 0%nat 0%Z 0%nat [] true)", Obs: obs, Class: class, Sig: class}
 }
 
-// c14Sched runs one scheduled case. ok=false: a timed case whose real-time margins were not met
-// or whose failure counters did not match the harness's own books (the caller re-runs it).
-func c14Sched(in *c14In) (Result, bool) {
+// c14Sched runs one scheduled case with the clock unit stretched by scale. Status (timed cases only):
+// 0 = usable; 1 = the failure counters did not match the harness's own books (re-run with a longer
+// unit before believing it); 2 = a measured real-time margin was missed (the observation means nothing).
+func c14Sched(in *c14In, scale int) (Result, int) {
 	if in.Hosts < 1 || in.Threads < 1 || in.MF < 1 {
-		return c14Skip("bad input", "sched:bad-input"), true
+		return c14Skip("bad input", "sched:bad-input"), 0
 	}
-	text, ftZ := c14Block(in)
+	unit, slack := c14Unit*time.Duration(scale), c14Slack*time.Duration(scale)
+	text, ftZ := c14Block(in, unit)
 	ups, err := proxy.NewStaticUpstreams(casketfile.NewDispenser("Testfile", strings.NewReader(text)), "")
 	if err != nil || len(ups) != 1 {
 		r := c14Skip(fmt.Sprint("setup error ", err), "sched:setup-error")
 		r.Direct = fmt.Sprint("proxy block rejected: ", err)
-		return r, true
+		return r, 0
 	}
 	defer ups[0].Stop()
 	run := &c14Run{events: make(chan c14Event, in.Threads+4), hosts: hostsOf(ups[0])}
@@ -324,7 +326,7 @@ func c14Sched(in *c14In) (Result, bool) {
 	var fails []c14Fail
 	fwdHost := map[int]int{}
 	nowUnits := 0
-	sane, timingOK, overshoot, overlap := true, true, false, false
+	sane, marginOK, booksOK, overshoot, overlap := true, true, true, false, false
 	maxActive, nFail := 0, 0
 	lastSnap := sn0
 
@@ -358,17 +360,15 @@ func c14Sched(in *c14In) (Result, bool) {
 				age := nowUnits - f.units
 				if in.FT < 0 || age < in.FT {
 					exp++
-					if in.FT > 0 && tEnd.Sub(f.tRelease) >= time.Duration(in.FT)*c14Unit-2*time.Millisecond {
-						timingOK = false
+					if in.FT > 0 && tEnd.Sub(f.tRelease) >= time.Duration(in.FT)*unit-2*time.Millisecond {
+						marginOK = false
 					}
-				} else if tBegin.Sub(f.tDone) < time.Duration(in.FT)*c14Unit+2*time.Millisecond {
-					timingOK = false
+				} else if tBegin.Sub(f.tDone) < time.Duration(in.FT)*unit+2*time.Millisecond {
+					marginOK = false
 				}
 			}
 			if x[1] != exp {
-				if in.FT > 0 {
-					timingOK = false // timed case: let the caller re-run before believing it
-				}
+				booksOK = false
 				sane = false
 			}
 		}
@@ -380,10 +380,29 @@ func c14Sched(in *c14In) (Result, bool) {
 			if d < 0 {
 				d = 0
 			}
-			if in.FT > 0 && d > 0 {
-				time.Sleep(time.Duration(d)*c14Unit + c14Slack)
-			}
 			nowUnits += d
+			if in.FT > 0 && d > 0 {
+				time.Sleep(time.Duration(d)*unit + slack)
+				// the model's expiry goroutines run on time; give late ones a moment to catch up
+				// (a wrong duration in the code is off by whole units and does not catch up)
+				for deadline := time.Now().Add(2 * slack); time.Now().Before(deadline); time.Sleep(time.Millisecond) {
+					late := false
+					for i, h := range run.hosts {
+						exp := int32(0)
+						for _, f := range fails {
+							if f.host == i && nowUnits-f.units < in.FT {
+								exp++
+							}
+						}
+						if atomic.LoadInt32(&h.Fails) > exp {
+							late = true
+						}
+					}
+					if !late {
+						break
+					}
+				}
+			}
 			record(cApp("HWait", cZ(int64(d))), "EvNone", time.Now())
 			return
 		}
@@ -506,20 +525,26 @@ func c14Sched(in *c14In) (Result, bool) {
 	}
 	res := Result{Term: term,
 		Obs: map[string]interface{}{"steps": execd, "final": lastSnap, "overshoot": overshoot, "window_overlap": overlap,
-			"block": text},
+			"block": text, "clock_unit_ms": int64(unit / time.Millisecond)},
 		Sig: sig, Nontrivial: maxActive >= 2 || nFail > 0,
 		Class: fmt.Sprintf("sched:hosts%d:mc%d:ft-%s:overlap=%v", in.Hosts, in.MC, ftc, overlap)}
 	if stuck != "" {
 		res.Direct = stuck
 		res.Sig = "sched:stuck"
 	}
-	return res, timingOK || in.FT <= 0
+	status := 0
+	if in.FT > 0 && !marginOK {
+		status = 2
+	} else if in.FT > 0 && !booksOK {
+		status = 1
+	}
+	return res, status
 }
 
 // c14Stress: free-running requests (no gating) through the real ServeHTTP.
 func c14Stress(in *c14In) Result {
 	sub := &c14In{Hosts: in.Hosts, MC: in.MC, MF: 1000000, FT: 1, Policy: in.Policy}
-	text, _ := c14Block(sub)
+	text, _ := c14Block(sub, c14Unit)
 	ups, err := proxy.NewStaticUpstreams(casketfile.NewDispenser("Testfile", strings.NewReader(text)), "")
 	if err != nil || len(ups) != 1 {
 		r := c14Skip(fmt.Sprint("setup error ", err), "stress:setup-error")
@@ -597,7 +622,19 @@ func c14Stress(in *c14In) Result {
 	}
 	close(start)
 	wg.Wait()
-	time.Sleep(c14Unit + 2*c14Slack)
+	time.Sleep(c14Unit + c14Slack)
+	// late expiry goroutines get up to 1.5 s; a missing decrement never gets there
+	for deadline := time.Now().Add(1500 * time.Millisecond); time.Now().Before(deadline); time.Sleep(2 * time.Millisecond) {
+		left := false
+		for _, h := range hosts {
+			if atomic.LoadInt32(&h.Fails) != 0 {
+				left = true
+			}
+		}
+		if !left {
+			break
+		}
+	}
 	var obs []string
 	var raw [][4]int64
 	over := false
@@ -706,12 +743,16 @@ func c14RunOne(in *c14In) Result {
 	switch in.Kind {
 	case "sched":
 		var res Result
-		for attempt := 0; attempt < 3; attempt++ {
-			var ok bool
-			res, ok = c14Sched(in)
-			if ok {
+		status := 0
+		for scale := 1; scale <= 3; scale++ {
+			res, status = c14Sched(in, scale)
+			if status == 0 {
 				break
 			}
+		}
+		if status == 2 {
+			// the machine was too busy to keep the real-time margins even with 120 ms units: nothing observed
+			return c14Skip("real-time margins missed in 3 attempts", "sched:timing-invalid")
 		}
 		return res
 	case "stress":
@@ -744,9 +785,9 @@ func c14Interleavings(a, b int) [][]int {
 
 func c14Gen(r *Rand, tier string) []interface{} {
 	var out []interface{}
-	nRandom, nTimed, nStress := 1200, 40, 10
+	nRandom, nTimed, nStress := 2000, 60, 12
 	if tier == "thorough" {
-		nRandom, nTimed, nStress = 14000, 400, 100
+		nRandom, nTimed, nStress = 20000, 500, 100
 	}
 	// 1. every interleaving of two requests (select, begin, finish each) x outcomes x settings
 	type setting struct {
